@@ -11,6 +11,7 @@ import (
 	"github.com/dominant-strategies/go-quai/core"
 	"github.com/dominant-strategies/go-quai/core/types"
 	"github.com/dominant-strategies/go-quai/params"
+	"github.com/dominant-strategies/go-quai/trie"
 
 	"verifharness/hlib"
 )
@@ -28,6 +29,7 @@ type EnvSpec struct {
 	PPT           *HSpec `json:"ppt,omitempty"` // prime parent of the terminus (nil: fetchPrimeBlock finds nothing)
 	DefGenesisPar bool   `json:"def_genesis_parent,omitempty"`
 	Anc           []HSpec `json:"anc,omitempty"` // further stored ancestors (oldest first) below the parent's parent
+	Loc           []int   `json:"loc,omitempty"` // location of the (zone) node: nil = [0,0]
 }
 
 // scenario rebuilt from specs: everything literal, so a replay reproduces the same hashes
@@ -49,12 +51,12 @@ func withPrimeParent(wo *types.WorkObject, e *EnvSpec) {
 	wo.WorkObjectHeader().SetHeaderHash(wo.Header().Hash())
 }
 
-func ptInfoCoq(found, gen00 bool, exp uint8, thr uint16, ppt *HSpec) string {
+func ptInfoCoq(found, gen bool, exp uint8, thr uint16, ppt *HSpec) string {
 	pf, pe := false, uint8(0)
 	if ppt != nil {
 		pf, pe = true, ppt.Expansion
 	}
-	return fmt.Sprintf("(mkPT %s %s %d %d %s %d)", hlib.CoqBool(found), hlib.CoqBool(gen00), exp, thr, hlib.CoqBool(pf), pe)
+	return fmt.Sprintf("(mkPT %s %s %d %d %s %d)", hlib.CoqBool(found), hlib.CoqBool(gen), exp, thr, hlib.CoqBool(pf), pe)
 }
 
 func envCoq(e *EnvSpec, ps HSpec) string {
@@ -70,7 +72,8 @@ func envCoq(e *EnvSpec, ps HSpec) string {
 	gcase := fmt.Sprintf("(mkG %s %s %s %d)", hlib.CoqBool(first), hlib.CoqBool(second), coqZ(z0(ps.PE[0])), ps.Expansion)
 	self := ptInfoCoq(true, ps.Genesis, ps.Expansion, ps.Threshold, e.PPT)
 	ref := ptInfoCoq(e.PTStored, e.PT.Genesis, e.PT.Expansion, e.PT.Threshold, e.PPT)
-	return fmt.Sprintf("(mkEnv %d %s %s %d %s %s %s %s %s)", e.Now, coqZ(bi(e.DL)), coqZ(bi(e.MinD)), e.GasCeil, gp, gcase, self, ref, coqZ(z0(e.PT.ExRate)))
+	loc := locOf(e.Loc)
+	return fmt.Sprintf("(mkEnv %d %s %s %d %s %s %s %s %s (%d, %d))", e.Now, coqZ(bi(e.DL)), coqZ(bi(e.MinD)), e.GasCeil, gp, gcase, self, ref, coqZ(z0(e.PT.ExRate)), loc[0], loc[1])
 }
 
 // ---------- ComputeExpansionNumber ----------
@@ -88,12 +91,74 @@ func (c *ctxT) runExpansion(cs Case) string {
 	if r != nil {
 		c.rep.Nontrivial(fmt.Sprintf("expansion:%v:%v", cs.Env.PTStored, cs.Env.PPT != nil))
 	}
+	// monitor: the protocol's rule for the expansion number, restated on the facts of the scenario (which block is the
+	// prime terminus, is it a genesis block of this slice, did its threshold count mature, which slice is this node)
+	if po := calcOrder(sc.ch, sc.p); po.kind == "ok" {
+		want, defined := protocolExpansion(cs.Env, cs.H[0], po.order == common.PRIME_CTX)
+		got := -1
+		if r != nil {
+			got = int(r.Int64())
+		}
+		if (defined && got != int(want)) || (!defined && r != nil) {
+			c.rep.Fail("ComputeExpansionNumber:rule", fmt.Sprintf("ComputeExpansionNumber(parent) = %d (-1: error) but the protocol rule gives %d (defined %v) at node location %v", got, want, defined, locOf(cs.Env.Loc)), cs)
+		}
+		c.rep.Count("expansion:" + expansionClass(cs.Env, cs.H[0], po.order == common.PRIME_CTX))
+	}
 	return fmt.Sprintf("CExpansion %s %s %s", envCoq(cs.Env, cs.H[0]), coqHeader(sc.ch, sc.p, cs.H[0]), coqOptZ(r))
+}
+
+// protocolExpansion restates ComputeExpansionNumber's protocol rule: the prime terminus of the child is the parent
+// itself when the parent is a prime block, else the block the parent names.  Only in the original slice [0,0] a genesis
+// terminus hands its expansion number down unchanged; everywhere else (and for ordinary termini) a terminus whose
+// threshold count matured (trigger window + wait count) starts the next expansion, otherwise the expansion number is the
+// one of the terminus' prime parent.
+func protocolExpansion(e *EnvSpec, ps HSpec, parentPrime bool) (uint8, bool) {
+	t, stored := e.PT, e.PTStored
+	if parentPrime {
+		t, stored = ps, true
+	}
+	if !stored {
+		return 0, false
+	}
+	if t.Genesis && isLoc00(e.Loc) {
+		return t.Expansion, true
+	}
+	if t.Threshold == params.TREE_EXPANSION_TRIGGER_WINDOW+params.TREE_EXPANSION_WAIT_COUNT {
+		return t.Expansion + 1, true
+	}
+	if e.PPT == nil {
+		return 0, false
+	}
+	return e.PPT.Expansion, true
+}
+
+// expansionClass: which branch of the rule a scenario exercises (distribution bucket)
+func expansionClass(e *EnvSpec, ps HSpec, parentPrime bool) string {
+	t, stored := e.PT, e.PTStored
+	who := "ref"
+	if parentPrime {
+		t, stored, who = ps, true, "self"
+	}
+	l := "loc00"
+	if !isLoc00(e.Loc) {
+		l = "other-slice"
+	}
+	switch {
+	case !stored:
+		return l + ":" + who + ":terminus-missing"
+	case t.Genesis && t.Threshold == params.TREE_EXPANSION_TRIGGER_WINDOW+params.TREE_EXPANSION_WAIT_COUNT:
+		return l + ":" + who + ":matured-genesis"
+	case t.Genesis:
+		return l + ":" + who + ":genesis"
+	case t.Threshold == params.TREE_EXPANSION_TRIGGER_WINDOW+params.TREE_EXPANSION_WAIT_COUNT:
+		return l + ":" + who + ":matured"
+	}
+	return l + ":" + who + ":ordinary"
 }
 
 // buildScenarioPP = buildScenario where the terminus and the parent name the env's ppt as their PRIME parent.
 func buildScenarioPP(e *EnvSpec, ps HSpec) *scenario {
-	sc := &scenario{ch: newChain(common.ZONE_CTX, bi(e.DL), bi(e.MinD), e.GasCeil)}
+	sc := &scenario{ch: newChainAt(common.ZONE_CTX, e.Loc, bi(e.DL), bi(e.MinD), e.GasCeil)}
 	ch := sc.ch
 	if e.PPT != nil {
 		sc.ppt = build(*e.PPT)
@@ -142,16 +207,7 @@ func (c *ctxT) runVerify(cs Case) string {
 	e := cs.Env
 	ps, csp := cs.H[0], cs.H[1]
 	sc := buildScenarioPP(e, ps)
-	child := build(csp)
-	if cs.Dev == "x:headerhash" {
-		child.WorkObjectHeader().SetHeaderHash(common.Hash{9})
-	}
-	if cs.Dev == "x:location" {
-		child.WorkObjectHeader().SetLocation(common.Location{1, 0})
-	}
-	if cs.Dev == "x:data" {
-		child.WorkObjectHeader().SetData(nil)
-	}
+	child := buildChild(cs, false)
 	sc.ch.setPow(child, z0(csp.Pow))
 	ok, panicked := verify(sc, child, e.Now)
 	if panicked {
@@ -194,13 +250,44 @@ func (c *ctxT) runVerify(cs Case) string {
 		if child.Time() < sc.p.Time() || child.Time() > e.Now+uint64(core.VerifC09AllowedFutureBlockTimeSeconds()) {
 			c.rep.Fail("verifyHeader:time", "accepted child violates the time rules", cs)
 		}
+		if po.kind == "ok" {
+			if want, defined := protocolExpansion(e, ps, po.order == common.PRIME_CTX); !defined || child.ExpansionNumber() != want {
+				c.rep.Fail("verifyHeader:expansion-number", fmt.Sprintf("accepted child carries expansion number %d, the protocol rule gives %d (defined %v) at node location %v", child.ExpansionNumber(), want, defined, locOf(e.Loc)), cs)
+			}
+			c.rep.Count("verify:expansion:" + expansionClass(e, ps, po.order == common.PRIME_CTX))
+		}
 	}
 	term := fmt.Sprintf("CVerify %s %s %s %s", envCoq(e, ps), coqHeader(sc.ch, sc.p, ps), coqHeader(sc.ch, child, csp), hlib.CoqBool(ok))
 	c.verifyHistory(cs, sc, child, ok)
+	store := c.storePaths(cs)
 	if len(cs.Dev) > 1 && cs.Dev[:2] == "x:" {
 		return "" // deviation of a rule outside the model: monitor only
 	}
+	if store != "" && (cs.Dev == "" || cs.ID%4 == 0) { // the model comparison of the store history: a quarter of the cases
+		c.extra = append(c.extra, store)
+	}
 	return term
+}
+
+// buildChild fabricates the child of a verify case (H[1] + the deviations that act on the built object).  withManifest:
+// the child commits to the one-entry manifest the store scenario registers for the parent (AppendHeader checks it).
+func buildChild(cs Case, withManifest bool) *types.WorkObject {
+	child := build(cs.H[1])
+	if withManifest {
+		child.Header().SetManifestHash(types.DeriveSha(types.BlockManifest{common.HexToHash(cs.H[1].Parent)}, trie.NewStackTrie(nil)), common.ZONE_CTX)
+		child.WorkObjectHeader().SetHeaderHash(child.Header().Hash())
+	}
+	if cs.Dev == "x:headerhash" {
+		child.WorkObjectHeader().SetHeaderHash(common.Hash{9})
+	}
+	if cs.Dev == "x:location" {
+		l := locOf(cs.H[1].Loc)
+		child.WorkObjectHeader().SetLocation(common.Location{(l[0] + 1) % 3, l[1]}) // another region: not in the node's slice
+	}
+	if cs.Dev == "x:data" {
+		child.WorkObjectHeader().SetData(nil)
+	}
+	return child
 }
 
 func expectedNum(ps HSpec) *big.Int {
@@ -233,6 +320,7 @@ func fabricateChild(c *ctxT, sc *scenario, e *EnvSpec, ps HSpec, zoneOrder bool)
 			ok = false
 			return
 		}
+		ch.Loc = e.Loc // a block of this node's slice
 		ch.Num, ch.NumX = ps.Num+1, ps.NumX
 		if ps.Num == ^uint64(0) { // carry into the wide part
 			ch.Num, ch.NumX = 0, new(big.Int).Add(z0(ps.NumX), two64).String()
@@ -329,8 +417,14 @@ type pairGen struct {
 }
 
 // genPair builds a random environment + parent and the valid child on top of it. shape selects the parent class.
-func genPair(c *ctxT, shape int) (*pairGen, bool) {
-	e := EnvSpec{Now: 1700000000 + c.rng.Next()%100000, GasCeil: 50000000, PTStored: true}
+func genPair(c *ctxT, shape int) (*pairGen, bool) { return genPairAt(c, shape, nil, true) }
+
+// nodeLocs: the node locations the verify sweep runs at ([0,0] = the original slice; the others start from an expansion genesis)
+var nodeLocs = [][]int{nil, {0, 1}, {1, 0}, {2, 2}, {1, 2}, {0, 2}}
+
+// genPairAt: loc = node location (pick: derived from the parent's nonce instead, without consuming the case's PRNG)
+func genPairAt(c *ctxT, shape int, loc []int, pick bool) (*pairGen, bool) {
+	e := EnvSpec{Now: 1700000000 + c.rng.Next()%100000, GasCeil: 50000000, PTStored: true, Loc: loc}
 	nets := [][2]string{{"5", "750000000000"}, {"5", "1000000"}, {"5", "150000000"}, {"1", "250000"}, {"5", "100000"}, {"5", "1000"}}
 	n := nets[c.rng.Intn(len(nets))]
 	e.DL, e.MinD = n[0], n[1]
@@ -427,6 +521,48 @@ func genPair(c *ctxT, shape int) (*pairGen, bool) {
 		win := []HSpec{anc[1], anc[3], anc[3], e.GP}
 		ps.Parent = build(e.GP).Hash().Hex()
 		ps.Shares = genShares(c, win, ps.Diff, ptime)
+	case 7: // the shapes ComputeExpansionNumber distinguishes: which block is the prime terminus of the child (the parent
+		// itself: a genesis block / a prime-order block; or the block the parent names), is it a genesis block of
+		// this slice, did its threshold count mature (trigger window + wait count: the next expansion starts), else the
+		// expansion number of its prime parent
+		matured := uint16(params.TREE_EXPANSION_TRIGGER_WINDOW + params.TREE_EXPANSION_WAIT_COUNT)
+		thr := []uint16{matured, matured, matured, 0, matured - 1, matured + 1, uint16(c.rng.Intn(2000))}[c.rng.Intn(7)]
+		exp := uint8(c.rng.Intn(4))
+		if c.rng.Chance(5) {
+			exp = 255 // ExpansionNumber()+1 wraps (uint8)
+		}
+		sub := c.rng.Intn(4)
+		if c.sub7 > 0 {
+			sub = c.sub7 - 1
+		}
+		switch sub {
+		case 0: // the parent IS a genesis block of the slice (an expansion genesis: a prime block of the old tree)
+			ps = defaultH()
+			ps.Genesis, ps.Num, ps.Diff, ps.Time, ps.Nonce = true, 0, pd.String(), ptime, c.rng.Next()
+			ps.NumPrime = []uint64{0, 4242}[c.rng.Intn(2)]
+			ps.Expansion, ps.Threshold = exp, thr
+			ps.LocEmpty = c.rng.Chance(30)
+			if ps.Expansion > 0 && c.rng.Bool() {
+				e.DefGenesisPar = true
+			}
+			e.GPKind = 0
+		case 1: // zone-order parent naming a genesis block as its prime terminus (the first blocks of a slice)
+			ps.Pow = powFor(c, target, true).String()
+			e.PT.Genesis, e.PT.Expansion, e.PT.Threshold = true, exp, thr
+			ps.Expansion = exp
+		case 2: // zone-order parent naming an ordinary / matured prime block
+			ps.Pow = powFor(c, target, true).String()
+			e.PT.Expansion, e.PT.Threshold = exp, thr
+			ps.Expansion = exp
+		default: // prime-order parent (it is the terminus itself) with its own threshold count
+			ps.Pow = powFor(c, target, false).String()
+			big1 := new(big.Int).Mul(two64, big.NewInt(int64(2000+c.rng.Intn(2000))))
+			ps.PD[2], ps.PD[1] = big1.String(), new(big.Int).Mul(big1, big.NewInt(3)).String()
+			ps.Expansion, ps.Threshold = exp, thr
+		}
+		if c.rng.Chance(10) {
+			e.PPT = nil
+		}
 	case 6: // numbers wider than 64 bits (the wire format has no width limit): number, prime number, terminus number
 		ps.Pow = powFor(c, target, c.rng.Chance(80)).String()
 		wide := func() string {
@@ -447,6 +583,16 @@ func genPair(c *ctxT, shape int) (*pairGen, bool) {
 			ps.Num = 0 // the low 64 bits are zero: CalcOrder's NumberU64()==0 shortcut
 		}
 		e.GP.Num = ps.Num - 1
+	}
+	if pick {
+		// the node location: half of the pairs in the original slice, the others spread over five further slices
+		// (derived from the parent's nonce: the PRNG stream of the case is not consumed)
+		if k := ps.Nonce % 10; k >= 5 {
+			e.Loc = nodeLocs[1+int(k-5)]
+		}
+	}
+	if !ps.Genesis {
+		ps.Loc = e.Loc // the parent is a block of this slice (a genesis parent is a prime block of another zone)
 	}
 	ps.PTHash = func() string { w := build(e.PT); withPrimeParent(w, &e); return w.Hash().Hex() }()
 	if e.GPKind != 0 {
@@ -545,6 +691,30 @@ func deviations() []deviation {
 			return true
 		}},
 		{"expansion+1", func(ch *HSpec, e *EnvSpec, ps HSpec) bool { ch.Expansion++; return true }},
+		{"expansion-1", func(ch *HSpec, e *EnvSpec, ps HSpec) bool { ch.Expansion--; return true }},
+		// the expansion number handed down unchanged from the parent / from the block the parent names as terminus
+		// (the stale value a node derives when it does not start the next expansion)
+		{"expansion=parent's", func(ch *HSpec, e *EnvSpec, ps HSpec) bool {
+			if ch.Expansion == ps.Expansion {
+				return false
+			}
+			ch.Expansion = ps.Expansion
+			return true
+		}},
+		{"expansion=terminus'", func(ch *HSpec, e *EnvSpec, ps HSpec) bool {
+			if ch.Expansion == e.PT.Expansion {
+				return false
+			}
+			ch.Expansion = e.PT.Expansion
+			return true
+		}},
+		{"expansion=terminus'+1", func(ch *HSpec, e *EnvSpec, ps HSpec) bool {
+			if ch.Expansion == e.PT.Expansion+1 {
+				return false
+			}
+			ch.Expansion = e.PT.Expansion + 1
+			return true
+		}},
 		{"gaslimit+1", func(ch *HSpec, e *EnvSpec, ps HSpec) bool { ch.GasLimit++; return true }},
 		{"gaslimit-1", func(ch *HSpec, e *EnvSpec, ps HSpec) bool {
 			if ch.GasLimit == 0 {
@@ -700,8 +870,10 @@ func wideDeviations() []deviation {
 }
 
 // verifyCases: the valid pair plus k single-field deviations of it (all of them when k < 0)
-func verifyCases(c *ctxT, shape int, k int) []Case {
-	pg, ok := genPair(c, shape)
+func verifyCases(c *ctxT, shape int, k int) []Case { return verifyCasesAt(c, shape, k, nil, true) }
+
+func verifyCasesAt(c *ctxT, shape int, k int, loc []int, pick bool) []Case {
+	pg, ok := genPairAt(c, shape, loc, pick)
 	if !ok {
 		// no valid child can be fabricated (e.g. terminus missing): the expansion case still documents the verdict
 		return []Case{{ID: c.next(), Kind: "expansion", Env: &pg.env, H: []HSpec{pg.parent}}}
@@ -726,7 +898,7 @@ func verifyCases(c *ctxT, shape int, k int) []Case {
 			idx = idx[:k]
 			// the work-share inflations are always part of the sample when the parent carries work-share entropy
 			for _, i := range rest {
-				if strings.HasSuffix(devs[i].name, "+parent-ws") {
+				if strings.HasSuffix(devs[i].name, "+parent-ws") || (shape == 7 && strings.HasPrefix(devs[i].name, "expansion")) {
 					idx = append(idx, i)
 				}
 			}
@@ -766,7 +938,8 @@ func cloneEnv(e *EnvSpec) *EnvSpec {
 func (c *ctxT) runChain(cs Case) {
 	length := int(bi(cs.Z[0]).Int64())
 	r := &ctxT{rng: hlib.NewRng(bi(cs.Z[1]).Uint64()), rep: c.rep}
-	pg, ok := genPair(r, 0)
+	// node location of the chain: the corpus chain 4711 (non-vacuity example of Props/C09.v) stays in [0,0]
+	pg, ok := genPairAt(r, 0, nodeLocs[int(bi(cs.Z[1]).Uint64()%uint64(len(nodeLocs)))*b2i(bi(cs.Z[1]).Uint64() != 4711)], false)
 	if !ok {
 		return
 	}
@@ -864,6 +1037,13 @@ func (c *ctxT) runChain(cs Case) {
 	if links > 1 {
 		c.rep.Nontrivial(fmt.Sprintf("chain:%d", links))
 	}
+}
+
+func b2i(b bool) int {
+	if b {
+		return 1
+	}
+	return 0
 }
 
 var _ = types.EmptyTermini
